@@ -332,6 +332,28 @@ func run(c *Case, identity bool, st *Stats) *vf.Failure {
 				return vf.Failf("join-rows", "%s: join of the helper tables returned %d rows, 400 expected", when, len(rows))
 			}
 			st.Classes["hash-join-with-temporary-pages"] = true
+		case "biglog":
+			// one session writes more log (about 600 KB) than the log buffer / recovery read buffer (516 KB) holds
+			if _, ok := m.Tables["bl"]; !ok {
+				hd := &dbh.TableDef{Name: "bl", Cols: []dbh.Col{{Name: "id", T: "i", Idx: dbh.IdxNone}, {Name: "s", T: "s", Idx: dbh.IdxNone}}}
+				if err := db.CreateTable(hd); err != nil {
+					return vf.Failf("create-error", "%s %s: %v", when, hd.Name, err)
+				}
+				m.Create(hd)
+				defs = append(defs, hd)
+			}
+			base := len(m.Tables["bl"].Rows)
+			for b := 0; b < 180; b += 20 {
+				ins := &dbh.Stmt{Kind: "insert", Table: "bl", Cols: []string{"id", "s"}}
+				for i := b; i < b+20; i++ {
+					ins.Rows = append(ins.Rows, dbh.Row{dbh.IntV(int32(base + i)), dbh.StrV(strings.Repeat("L", 3300))})
+				}
+				if _, err := db.Auto(ins); err != nil {
+					return vf.Failf("dml-error", "%s %s: %v", when, "insert into bl", err)
+				}
+				m.Apply(ins, dbh.EvalMode{})
+			}
+			st.Classes["session-with-log-larger-than-the-log-buffer"] = true
 		case "restart", "crash":
 			n := 0
 			for _, d := range defs {
@@ -404,6 +426,8 @@ type GenOpts struct {
 	// B-tree table had a crash restart, later restarts are crash restarts too
 	NoBtreeCleanAfterCrash bool
 	OnExcluded             func(string)
+	// BigLogPct: share of operations (at most one per history) that insert about 600 KB into a helper table in one session
+	BigLogPct int
 	// BigJoinPct: share of operations that run a hash join over two helper tables (400 x 400 rows)
 	BigJoinPct int
 	// ManyTablesPct: share of histories that start by creating 9-13 six-column tables (names and column names of
@@ -423,12 +447,23 @@ func Gen(t *rapid.T, o GenOpts) *Case {
 	g := &gstate{ids: map[string][]int32{}}
 	n := rapid.IntRange(3, 18).Draw(t, "nops")
 	nIdx, nBtree := 0, 0
+	bigLogDone := false
 	if o.ManyTablesPct > 0 && rapid.IntRange(0, 99).Draw(t, "many") < o.ManyTablesPct {
 		nw := rapid.IntRange(9, 13).Draw(t, "nwide")
+		longNames := rapid.IntRange(0, 2).Draw(t, "longnames") == 0
+		colNames := []string{"a", "bb", "ccc", "dddd", "eeeee", "ffffff"}
+		if longNames {
+			// 24-28 tables with 150-character names and two columns: the table catalog itself spills over to a second heap page
+			nw = rapid.IntRange(24, 28).Draw(t, "nlong")
+			colNames = colNames[:2]
+		}
 		for w := 0; w < nw; w++ {
 			name := fmt.Sprintf(rapid.SampledFrom([]string{"w%d", "wide%d", "wide_table_%d", "W%d"}).Draw(t, "wname"), w)
+			if longNames {
+				name = fmt.Sprintf("long_named_table_%03d_%s", w, strings.Repeat("n", 128))
+			}
 			def := &dbh.TableDef{Name: name}
-			for ci, cn := range []string{"a", "bb", "ccc", "dddd", "eeeee", "ffffff"} {
+			for ci, cn := range colNames {
 				cl := dbh.Col{Name: cn, T: rapid.SampledFrom([]string{"i", "i", "f", "s"}).Draw(t, "wtype"), Idx: dbh.IdxNone}
 				if ci == 0 && rapid.Bool().Draw(t, "widx") {
 					cl.Idx = dbh.IdxSkip
@@ -452,6 +487,14 @@ func Gen(t *rapid.T, o GenOpts) *Case {
 	}
 	for i := 0; i < n; i++ {
 		k := rapid.IntRange(0, 9).Draw(t, "opk")
+		if o.BigLogPct > 0 && len(g.defs) > 0 && !bigLogDone && rapid.IntRange(0, 99).Draw(t, "biglog") < o.BigLogPct {
+			bigLogDone = true
+			c.Ops = append(c.Ops, Op{K: "biglog"})
+			if rapid.IntRange(0, 2).Draw(t, "logrestart") != 0 {
+				c.Ops = append(c.Ops, Op{K: restartKind(t, o, c, nBtree)})
+			}
+			continue
+		}
 		if o.BigJoinPct > 0 && len(g.defs) > 0 && rapid.IntRange(0, 99).Draw(t, "bigjoin") < o.BigJoinPct {
 			c.Ops = append(c.Ops, Op{K: "bigjoin"})
 			if rapid.Bool().Draw(t, "joinrestart") { // stop right after the join: nothing else allocates a page in between
@@ -484,7 +527,11 @@ func Gen(t *rapid.T, o GenOpts) *Case {
 				op := Op{K: "abort-txn", Check: true}
 				ns := rapid.IntRange(1, 3).Draw(t, "nab")
 				for j := 0; j < ns; j++ {
-					if s := genDML(t, g, def, o); s != nil {
+					d := def
+					if len(g.defs) > 1 && rapid.Bool().Draw(t, "othertbl") {
+						d = g.defs[rapid.IntRange(0, len(g.defs)-1).Draw(t, "abtbl")] // one rolled-back transaction may change several tables
+					}
+					if s := genDML(t, g, d, o); s != nil {
 						op.Stmts = append(op.Stmts, *s)
 					}
 				}
@@ -497,7 +544,7 @@ func Gen(t *rapid.T, o GenOpts) *Case {
 			c.Ops = append(c.Ops, Op{K: restartKind(t, o, c, nBtree)})
 		}
 	}
-	if k := c.Ops[len(c.Ops)-1].K; k == "create" || k == "dml" || k == "abort-txn" || k == "bigjoin" {
+	if k := c.Ops[len(c.Ops)-1].K; k == "create" || k == "dml" || k == "abort-txn" || k == "bigjoin" || k == "biglog" {
 		c.Ops = append(c.Ops, Op{K: restartKind(t, o, c, nBtree)})
 	}
 	frames := 3*nIdx + 8*nBtree + 10 + rapid.SampledFrom([]int{0, 6, 30, 100}).Draw(t, "spare")
